@@ -1,17 +1,26 @@
 (** Executable model of class-constraint generation: PEPit/function.py 323-453 (the two generic
-    generators with their tables and names), Function.set_class_constraints, and the shapes of
-    [add_class_constraints] bodies ("plans", emitted by the translator from functions/*.py and
-    operators/*.py into Gen/Plans.v). *)
+    generators with their tables and names), Function.get_class_constraints_duals (455-502),
+    Function.set_class_constraints, BlockSmoothConvexFunction.add_class_constraints (hand-rolled
+    loops) and the shapes of the other [add_class_constraints] bodies ("plans", emitted by the
+    translator from functions/*.py and operators/*.py into Gen/Classes.v).  No proofs here. *)
 From Coq Require Import List QArith Bool String Ascii Arith.
 From Coq Require Import Numbers.DecimalString Numbers.DecimalNat.
 From PV Require Import Model.Dict Model.Terms.
 Import ListNotations.
 Local Open Scope string_scope.
 
-(** A recorded sample (x, g, f) of a function: decomposition dictionaries + the name of x. *)
+(** A recorded sample (x, g, f) of a function: decomposition dictionaries + the name of x.
+    Object identities (Python [is]) are small integers handed out by the harness from [id(obj)]:
+    [s_uid] is the identity of the triplet tuple object itself (the same tuple object sits in
+    list_of_points and in list_of_stationary_points), [s_xid]/[s_gid] those of the Point objects x
+    and g.  [s_gblocks] = [partition.get_block(g, k) for k in range(d)] (BlockSmooth only; the block
+    partition itself is modelled elsewhere, the blocks are input data here). *)
 Record sample := mkSample {
   s_x : pdict; s_g : pdict; s_f : edict;
-  s_name : option string
+  s_name : option string;
+  s_uid : nat;
+  s_xid : nat; s_gid : nat;
+  s_gblocks : list pdict
 }.
 
 Inductive lst := LPoints | LStationary | LTPoints.
@@ -26,24 +35,30 @@ Inductive plan_item :=
 | Guarded (g : guard) (item : plan_item)
 | AutoStationary             (* if self.list_of_stationary_points == list(): self.stationary_point() *)
 | LMI (l : lst) (entry : xterm)
-| CrossEq (f : cterm).       (* LinearOperator: for xy in points: for uv in T.points: append (f) unnamed *)
+| CrossEq (f : cterm)        (* LinearOperator: for xy in points: for uv in T.points: append (f) unnamed *)
+| BlockPairs (cprefix : string) (f : cterm).
+                             (* BlockSmoothConvexFunction: for i: for j: if point_i == point_j: 0 else for k: f *)
 
 (** variable numbering used by every generated formula (see translator/pep2coq.py) *)
 Definition V_xi := 0%nat. Definition V_gi := 1%nat. Definition V_xj := 2%nat. Definition V_gj := 3%nat.
 Definition V_xs := 4%nat. Definition V_v := 5%nat. Definition V_gik := 6%nat. Definition V_gjk := 7%nat.
 Definition X_fi := 0%nat. Definition X_fj := 1%nat. Definition X_fs := 2%nat.
+Definition P_Lk := 6%nat.           (* self.L[k] inside the block formula *)
 
 (** state of one leaf function when its class constraints are generated *)
 Record fstate := mkF {
   f_id : string;                    (* name, or "Function_<counter>" *)
-  f_par : nat -> Q;                 (* self.L, self.mu, ... (numbering in Gen/Plans.v) *)
+  f_par : nat -> Q;                 (* self.L, self.mu, ... (numbering in Gen/Classes.v) *)
   f_inf : nat -> bool;              (* parameter is np.inf *)
   f_points : list sample;
   f_stat : list sample;
   f_tpoints : list sample;          (* LinearOperator: self.T.list_of_points *)
   f_v : option pdict;               (* NonexpansiveOperator: self.v *)
   f_next_point : nat;               (* Point.counter / fresh leaf id *)
-  f_next_expr : nat                 (* Expression.counter *)
+  f_next_expr : nat;                (* Expression.counter *)
+  f_next_uid : nat;                 (* first unused object identity *)
+  f_nblocks : nat;                  (* BlockSmooth: self.partition.get_nb_blocks() *)
+  f_Lk : nat -> Q                   (* BlockSmooth: self.L[k] *)
 }.
 
 Definition nat_to_string (n : nat) : string := NilEmpty.string_of_uint (Nat.to_uint n).
@@ -80,40 +95,82 @@ Definition inst (st : fstate) (f : cterm) (si sj : sample) : edict * sense :=
 Definition instX (st : fstate) (t : xterm) (si sj : sample) : edict :=
   compileX (f_par st) (env_p st si sj) (env_x st si sj) t.
 
+(** block k of the formula of BlockSmoothConvexFunction: gik, gjk = get_block(gi, k), get_block(gj, k);
+    self.L[k] *)
+Definition env_pb (st : fstate) (k : nat) (si sj : sample) : nat -> pdict :=
+  fun v => if Nat.eqb v V_gik then nth k (s_gblocks si) []
+           else if Nat.eqb v V_gjk then nth k (s_gblocks sj) []
+           else env_p st si sj v.
+Definition par_b (st : fstate) (k : nat) : nat -> Q :=
+  fun p => if Nat.eqb p P_Lk then f_Lk st k else f_par st p.
+Definition instB (st : fstate) (f : cterm) (k : nat) (si sj : sample) : edict * sense :=
+  compileC (par_b st k) (env_pb st k si sj) (env_x st si sj) f.
+
 Fixpoint enumerate_from {A} (i : nat) (l : list A) : list (nat * A) :=
   match l with [] => [] | a :: l' => (i, a) :: enumerate_from (S i) l' end.
 Definition enumerate {A} (l : list A) := enumerate_from 0 l.
 
+Definition pair_name (st : fstate) (cname : string) (si sj : sample) (i j : nat) : string :=
+  "IC_" ++ f_id st ++ "_" ++ cname ++ "(" ++ point_id si i ++ ", " ++ point_id sj j ++ ")".
+Definition single_name (st : fstate) (cname : string) (si : sample) (i : nat) : string :=
+  "IC_" ++ f_id st ++ "_" ++ cname ++ "(" ++ point_id si i ++ ")".
+
+(** function.py:421  [if point_i is point_j or (i > j and symmetry)] : the pair is skipped *)
+Definition skip_pair (symmetry : bool) (i j : nat) (si sj : sample) : bool :=
+  Nat.eqb (s_uid si) (s_uid sj) || (Nat.ltb j i && symmetry).
+
 (** function.py:375 add_constraints_from_two_lists_of_points.
-    Row i / column j: [None] (a 0 in the table) when [i == j or (i > j and symmetry)], else the
-    constraint.  Returns rows of optional constraints; the flat list in row-major order is what is
-    appended to list_of_class_constraints. *)
+    Row i / column j: [None] (a 0 in the table) when the pair is skipped, else the constraint.
+    Returns rows of optional constraints; the flat list in row-major order is what is appended to
+    list_of_class_constraints. *)
 Definition gen_pairs (st : fstate) (l1 l2 : list sample) (cname : string) (f : cterm) (symmetry : bool)
   : list (list (option citem)) :=
   map (fun '(i, si) =>
          map (fun '(j, sj) =>
-                if Nat.eqb i j || (Nat.ltb j i && symmetry) then None
-                else Some (mkC (Some ("IC_" ++ f_id st ++ "_" ++ cname ++ "(" ++ point_id si i ++ ", "
-                                              ++ point_id sj j ++ ")"))
-                               (inst st f si sj)))
+                if skip_pair symmetry i j si sj then None
+                else Some (mkC (Some (pair_name st cname si sj i j)) (inst st f si sj)))
              (enumerate l2))
       (enumerate l1).
 
 (** function.py:323 add_constraints_from_one_list_of_points *)
 Definition gen_singles (st : fstate) (l : list sample) (cname : string) (f : cterm) : list citem :=
-  map (fun '(i, si) =>
-         mkC (Some ("IC_" ++ f_id st ++ "_" ++ cname ++ "(" ++ point_id si i ++ ")")) (inst st f si si))
-      (enumerate l).
+  map (fun '(i, si) => mkC (Some (single_name st cname si i)) (inst st f si si)) (enumerate l).
 
 Definition flatten_opts {A} (rows : list (list (option A))) : list A :=
   flat_map (fun row => flat_map (fun o => match o with Some a => [a] | None => [] end) row) rows.
 
-(** the table stored in tables_of_constraints[cname]; absent when the array has shape (0,) *)
-Record table := mkT { t_name : string; t_rows : list (list (option citem)) }.
+(** A table cell holds the Constraint *object*; an object is identified by its position in
+    list_of_class_constraints (every generated constraint is appended there exactly once).
+    [number_rows off rows] attaches to every [Some] cell, in row-major order, the positions
+    off, off+1, ... *)
+Fixpoint number_row {A} (off : nat) (row : list (option A)) : list (option (nat * A)) * nat :=
+  match row with
+  | [] => ([], off)
+  | None :: r => let '(r', n) := number_row off r in (None :: r', n)
+  | Some a :: r => let '(r', n) := number_row (S off) r in (Some (off, a) :: r', n)
+  end.
+Fixpoint number_rows {A} (off : nat) (rows : list (list (option A))) : list (list (option (nat * A))) :=
+  match rows with
+  | [] => []
+  | r :: rs => let '(r', n) := number_row off r in r' :: number_rows n rs
+  end.
+
+(** the pandas DataFrame stored in tables_of_constraints[t_name]: cells, row labels (index), column
+    labels, columns.name *)
+Record table := mkT {
+  t_name : string;
+  t_rows : list (list (option (nat * citem)));
+  t_index : list string;
+  t_columns : list string;
+  t_title : string
+}.
+
+(** [point[0].name or "Point_{}".format(point_index)] *)
+Definition labels (l : list sample) : list string := map (fun '(i, s) => point_id s i) (enumerate l).
 
 Record genout := mkG {
   g_cons : list citem;              (* list_of_class_constraints, in order *)
-  g_lmis : list (list (list edict));(* list_of_class_psd appended by this call *)
+  g_lmis : list (list (list edict));(* list_of_class_psd, in order *)
   g_tables : list table;            (* tables_of_constraints entries written, in order (later writes win) *)
   g_state : fstate
 }.
@@ -124,14 +181,51 @@ Definition guard_true (st : fstate) (g : guard) : bool :=
   | GHasV => match f_v st with Some _ => true | None => false end
   end.
 
-(** Function.stationary_point() : fresh leaf point, empty gradient, fresh leaf value *)
+(** Function.stationary_point() : fresh leaf point, empty gradient, fresh leaf value; the new
+    triplet object is appended to both lists *)
 Definition auto_stationary (st : fstate) : fstate :=
-  let s := mkSample [(f_next_point st, 1)] [] [(KF (f_next_expr st), 1)] None in
+  let u := f_next_uid st in
+  let s := mkSample [(f_next_point st, 1)] [] [(KF (f_next_expr st), 1)] None u (S u) (S (S u)) [] in
   mkF (f_id st) (f_par st) (f_inf st) (f_points st ++ [s]) (f_stat st ++ [s]) (f_tpoints st) (f_v st)
-      (S (f_next_point st)) (S (f_next_expr st)).
+      (S (f_next_point st)) (S (f_next_expr st)) (S (S (S u))) (f_nblocks st) (f_Lk st).
 
 Definition append_out (o : genout) (cs : list citem) (ls : list (list (list edict))) (ts : list table) st :=
   mkG (g_cons o ++ cs) (g_lmis o ++ ls) (g_tables o ++ ts) st.
+
+(** ---- BlockSmoothConvexFunction.add_class_constraints (functions/block_smooth_convex_function.py).
+    The skip test is [point_i == point_j] on the two triplet *tuples*.  CPython compares tuples item
+    by item with PyObject_RichCompareBool: identical objects are equal; otherwise [==] is called and
+    its result's truth value is taken.  Point does not overload [==] (identity); Expression does:
+    [fi == fj] builds a Constraint object, which is truthy.  Hence two triplets are "equal" iff they
+    are the same tuple object or hold the same Point objects x and g -- whatever their f (a side
+    effect, one throw-away Constraint, and Constraint.counter += 1, is not modelled). *)
+Definition same_tuple (si sj : sample) : bool :=
+  Nat.eqb (s_uid si) (s_uid sj) || (Nat.eqb (s_xid si) (s_xid sj) && Nat.eqb (s_gid si) (s_gid sj)).
+
+Definition block_name (st : fstate) (cprefix : string) (k : nat) (si sj : sample) (i j : nat) : string :=
+  "IC_" ++ f_id st ++ "_" ++ cprefix ++ nat_to_string k ++ "(" ++ point_id si i ++ ", " ++ point_id sj j ++ ")".
+
+(** the ordered pairs that get constraints (None = skipped), as a grid *)
+Definition block_grid (l : list sample) : list (list (option (nat * sample * nat * sample))) :=
+  map (fun '(i, si) =>
+         map (fun '(j, sj) => if same_tuple si sj then None else Some (i, si, j, sj)) (enumerate l))
+      (enumerate l).
+
+Definition block_citem (st : fstate) (cprefix : string) (f : cterm) (k : nat)
+           (q : nat * sample * nat * sample) : citem :=
+  let '(i, si, j, sj) := q in mkC (Some (block_name st cprefix k si sj i j)) (instB st f k si sj).
+
+(** appended to list_of_class_constraints: for i, for j (not skipped), for k *)
+Definition gen_block_flat (st : fstate) (cprefix : string) (f : cterm) (l : list sample) : list citem :=
+  flat_map (fun q => map (fun k => block_citem st cprefix f k q) (seq 0 (f_nblocks st)))
+           (flatten_opts (block_grid l)).
+
+(** table of block k: the r-th generated pair contributes positions off + nb*r + k *)
+Definition block_table (st : fstate) (cprefix : string) (f : cterm) (l : list sample) (off k : nat) : table :=
+  mkT (cprefix ++ nat_to_string k)
+      (map (map (option_map (fun '(r, q) => ((off + f_nblocks st * r + k)%nat, block_citem st cprefix f k q))))
+           (number_rows 0 (block_grid l)))
+      (labels l) (labels l) ("IC_" ++ f_id st).
 
 Fixpoint run_item (it : plan_item) (o : genout) {struct it} : genout :=
   let st := g_state o in
@@ -139,12 +233,18 @@ Fixpoint run_item (it : plan_item) (o : genout) {struct it} : genout :=
   | Pairs l1 l2 cname f sym =>
       let rows := gen_pairs st (get_list st l1) (get_list st l2) cname f sym in
       (* np.array(rows).shape != (0,)  <=>  list1 is not empty *)
-      let ts := match get_list st l1 with [] => [] | _ => [mkT cname rows] end in
+      let ts := match get_list st l1 with
+                | [] => []
+                | _ => [mkT cname (number_rows (List.length (g_cons o)) rows)
+                            (labels (get_list st l1)) (labels (get_list st l2)) ("IC_" ++ f_id st)]
+                end in
       append_out o (flatten_opts rows) [] ts st
   | Singles l cname f =>
       let cs := gen_singles st (get_list st l) cname f in
-      (* reshape(1,-1) always gives shape (1, n) != (0,) : the table is always stored *)
-      append_out o cs [] [mkT cname [map Some cs]] st
+      (* reshape(1,-1) always gives shape (1, n) != (0,) : the table is always stored; default index [0] *)
+      append_out o cs []
+                 [mkT cname (number_rows (List.length (g_cons o)) [map Some cs])
+                      ["0"] (labels (get_list st l)) ("IC_" ++ f_id st)] st
   | Guarded g it' => if guard_true st g then run_item it' o else o
   | AutoStationary =>
       match f_stat st with
@@ -157,8 +257,36 @@ Fixpoint run_item (it : plan_item) (o : genout) {struct it} : genout :=
   | CrossEq f =>
       let cs := flat_map (fun si => map (fun sj => mkC None (inst st f si sj)) (f_tpoints st)) (f_points st) in
       append_out o cs [] [] st
+  | BlockPairs cprefix f =>
+      let l := f_points st in
+      let ts := match l with
+                | [] => []
+                | _ => map (block_table st cprefix f l (List.length (g_cons o))) (seq 0 (f_nblocks st))
+                end in
+      append_out o (gen_block_flat st cprefix f l) [] ts st
   end.
 
-(** Function.set_class_constraints: reset list_of_class_constraints (only), run the class body. *)
+(** Function.set_class_constraints: reset list_of_class_constraints and list_of_class_psd, run the
+    class body. *)
 Definition run_plan (plan : list plan_item) (st : fstate) : genout :=
   fold_left (fun o it => run_item it o) plan (mkG [] [] [] st).
+
+(** Python dict semantics of tables_of_constraints[cname] = df : overwrite in place, else append *)
+Fixpoint table_set (t : table) (l : list table) : list table :=
+  match l with
+  | [] => [t]
+  | t' :: l' => if String.eqb (t_name t') (t_name t) then t :: l' else t' :: table_set t l'
+  end.
+Definition tables_dict (ts : list table) : list table := fold_left (fun acc t => table_set t acc) ts [].
+
+Fixpoint table_get (name : string) (l : list table) : option table :=
+  match l with
+  | [] => None
+  | t :: l' => if String.eqb (t_name t) name then Some t else table_get name l'
+  end.
+
+(** function.py:455 get_class_constraints_duals, one table: the dual value of the Constraint object
+    in each cell ([dual p] = multiplier of the p-th class constraint of this function), the scalar 0
+    where the table holds 0 *)
+Definition duals_table (dual : nat -> Q) (t : table) : list (list Q) :=
+  map (map (fun o => match o with Some (p, _) => dual p | None => 0%Q end)) (t_rows t).
